@@ -162,13 +162,10 @@ impl<'a> SessionData<'a> {
                     QoS::ExactlyOnce => {
                         let packet_id = info.packet_id.ok_or(ProtocolError::MalformedPacket)?;
                         let duplicate = self.pending_server_packet_ids.contains(&packet_id);
-                        let reason = if !duplicate {
-                            self.pending_server_packet_ids
-                                .push(packet_id)
-                                .map(|_| ReasonCode::Success)
-                                .unwrap_or(ReasonCode::ReceiveMaxExceeded)
-                        } else {
+                        let reason = if duplicate || !self.pending_server_packet_ids.is_full() {
                             ReasonCode::Success
+                        } else {
+                            ReasonCode::ReceiveMaxExceeded
                         };
                         trace!(
                             "Queueing PUBREC for inbound QoS2 PUBLISH packet_id={=u16} duplicate={=bool} {}",
@@ -184,6 +181,9 @@ impl<'a> SessionData<'a> {
                             );
                             return Ok(false);
                         }
+                        // Recorded only once the PUBREC is queued: if that failed the message was
+                        // not accepted and its retransmission must not be taken for a duplicate.
+                        let _ = self.pending_server_packet_ids.push(packet_id);
                     }
                 }
                 return Ok(true);
